@@ -464,12 +464,59 @@ func ruleReceivePositionOnCommit(c *Ctx, r *Report) {
 		// ... of a replay marker: a function literal handed out by a function that asked a detector,
 		// in which the advance follows the invocation of the detector's accept function
 		okSite := false
-		if par := s.Fn.Parent(); par != nil {
-			asks := false
-			for _, b := range par.Blocks {
+		// every function value made of s.Fn - a literal's closure, or a method value - is made
+		// by a function that asked a detector, holds that detector's accept function, and
+		// invokes it before the advance
+		var closures []*ssa.MakeClosure
+		closed := true
+		if s.Fn.Parent() != nil {
+			for _, b := range s.Fn.Parent().Blocks {
+				for _, in := range b.Instrs {
+					if mc, isMC := in.(*ssa.MakeClosure); isMC && mc.Fn == ssa.Value(s.Fn) {
+						closures = append(closures, mc)
+					}
+				}
+			}
+		} else {
+			// a method: never called directly, never reached through an interface
+			closed = !c.methodInSomeInterface(s.Fn)
+			var ops []*ssa.Value
+			for _, g := range c.Fns {
+				for _, b := range g.Blocks {
+					for _, in := range b.Instrs {
+						ops = in.Operands(ops[:0])
+						for _, op := range ops {
+							if op != nil && *op == ssa.Value(s.Fn) {
+								closed = false
+							}
+						}
+						if mc, isMC := in.(*ssa.MakeClosure); isMC {
+							if w, isF := mc.Fn.(*ssa.Function); isF && strings.HasPrefix(w.Synthetic, "bound method wrapper") {
+								if cf := commitFnOf(mc); cf != nil && cf.body == s.Fn {
+									closures = append(closures, mc)
+								} else if cf == nil && len(findCalls(w, func(string) bool { return true })) == 1 && findCalls(w, func(string) bool { return true })[0].Call.StaticCallee() == s.Fn {
+									closed = false // a method value of s.Fn that could not be resolved
+								}
+							}
+						}
+					}
+				}
+			}
+		}
+		okSite = closed && len(closures) > 0
+		for _, mc := range closures {
+			cf := commitFnOf(mc)
+			if cf == nil || cf.body != s.Fn {
+				okSite = false
+				continue
+			}
+			var accepts []ssa.Value
+			for _, b := range mc.Parent().Blocks {
 				for _, in := range b.Instrs {
 					if cl, ok := in.(*ssa.Call); ok && cl.Call.IsInvoke() && cl.Call.Method.Name() == "Check" {
-						asks = true
+						if a := resultValue(cl, 0); a != nil {
+							accepts = append(accepts, a)
+						}
 					}
 				}
 			}
@@ -477,17 +524,18 @@ func ruleReceivePositionOnCommit(c *Ctx, r *Report) {
 			for _, b := range s.Fn.Blocks {
 				for _, in := range b.Instrs {
 					if cl, ok := in.(*ssa.Call); ok && !cl.Call.IsInvoke() && isFuncBoolType(cl.Call.Value.Type()) {
-						v := cl.Call.Value
-						if u, isU := v.(*ssa.UnOp); isU {
-							v = u.X
-						}
-						if _, isFV := v.(*ssa.FreeVar); isFV {
-							acceptCall = in
+						bv := cf.bound(cl.Call.Value)
+						for _, a := range accepts {
+							if bv != nil && bv == a {
+								acceptCall = in
+							}
 						}
 					}
 				}
 			}
-			okSite = asks && acceptCall != nil && instrDominates(acceptCall, s.Call)
+			if acceptCall == nil || !instrDominates(acceptCall, s.Call) {
+				okSite = false
+			}
 		}
 		r.Check(okSite, "replay-check", "updateRemoteSequenceNumber<-"+short(s.Fn), c.ipos(s.Call), "advanced only when the replay window commits the record", "the highest accepted sequence number is advanced outside the commit closure of a replay marker")
 	}
@@ -639,93 +687,105 @@ func constantUint64(c *ssa.Const) (uint64, bool) {
 	return 0, false
 }
 
+// readDelivery is one place where something is handed to Read through Conn.decrypted: a send (or
+// a select case) on the channel, or - when the function that sends only passes on a parameter of
+// its own and all of its callers are known - each call of that function, with the argument there.
+type readDelivery struct {
+	fn      *ssa.Function
+	in      ssa.Instruction
+	sent    ssa.Value // what is sent, interface wrapping removed
+	payload bool      // bytes (record payload) and not an error / EOF signal
+}
+
+func (c *Ctx) readDeliveries() []readDelivery {
+	var out []readDelivery
+	var add func(fn *ssa.Function, in ssa.Instruction, v ssa.Value, d int)
+	add = func(fn *ssa.Function, in ssa.Instruction, v ssa.Value, d int) {
+		if mi, ok := v.(*ssa.MakeInterface); ok {
+			v = mi.X
+		}
+		if p, isP := v.(*ssa.Parameter); isP && d < 2 && types.IsInterface(p.Type()) && p.Parent() == fn {
+			if sites, closed := c.staticCallers(fn); closed && len(sites) > 0 {
+				for _, s := range sites {
+					ci, isI := s.Call.(ssa.Instruction)
+					if pi := paramIndex(p); isI && pi >= 0 && pi < len(s.Call.Common().Args) {
+						add(s.Fn, ci, s.Call.Common().Args[pi], d+1)
+					}
+				}
+				return
+			}
+		}
+		out = append(out, readDelivery{fn, in, v, isPayloadValue(v)})
+	}
+	for _, fn := range c.Fns {
+		for _, b := range fn.Blocks {
+			for _, in := range b.Instrs {
+				switch x := in.(type) {
+				case *ssa.Send:
+					if isFieldLoad(x.Chan, "dtls.Conn", "decrypted") {
+						add(fn, in, x.X, 0)
+					}
+				case *ssa.Select:
+					for _, st := range x.States {
+						if st.Dir == types.SendOnly && isFieldLoad(st.Chan, "dtls.Conn", "decrypted") {
+							add(fn, in, st.Send, 0)
+						}
+					}
+				}
+			}
+		}
+	}
+	return out
+}
+
 // ruleEpochZeroAppData (C05-4, C07-3): application data in an epoch-0 record is never delivered;
 // the only byte-slice sender on Conn.decrypted is the application-data consumer.
 func ruleEpochZeroAppData(c *Ctx, r *Report) {
 	const rule = "epoch0-appdata"
 	n := 0
-	for _, fn := range c.Fns {
-		for _, b := range fn.Blocks {
-			for _, in := range b.Instrs {
-				var chans []ssa.Value
-				var sentBytes bool
-				switch x := in.(type) {
-				case *ssa.Send:
-					chans = append(chans, x.Chan)
-					_, sentBytes = x.X.Type().Underlying().(*types.Slice)
-				case *ssa.Select:
-					for _, st := range x.States {
-						if st.Dir == types.SendOnly {
-							chans = append(chans, st.Chan)
-							if mi, ok := st.Send.(*ssa.MakeInterface); ok {
-								_, sentBytes = mi.X.Type().Underlying().(*types.Slice)
-							}
-						}
-					}
+	for _, dl := range c.readDeliveries() {
+		fn, in, sent := dl.fn, dl.in, dl.sent
+		r.Sites++
+		if !dl.payload {
+			r.Note(rule, "send:"+short(fn), c.ipos(in), "non-payload send on Conn.decrypted (error/EOF signalling)")
+			continue
+		}
+		n++
+		key := short(fn)
+		if sent == nil || !allLeaves(c.Origins(sent, 0), func(v ssa.Value) bool { return isFieldLoad(v, "pkg/protocol.ApplicationData", "Data") }) {
+			r.Bad(rule, "payload-send:"+key, c.ipos(in), "a payload that is not the Data of an ApplicationData record is delivered to Read")
+			continue
+		}
+		// unreachable when the record's own header epoch is 0 (on the application-data branch
+		// when the consumer sits inside the content-type dispatch)
+		as := []atomAssume{
+			{mLoad("pkg/protocol/recordlayer.Header", "Epoch"), vInt(0)},
+			{mTypeAssertOK("pkg/protocol.ApplicationData"), vBool(true)},
+			{func(v ssa.Value) bool {
+				ex, ok := v.(*ssa.Extract)
+				if !ok || ex.Index != 1 {
+					return false
 				}
-				for _, ch := range chans {
-					if !isFieldLoad(ch, "dtls.Conn", "decrypted") {
-						continue
+				ta, ok := ex.Tuple.(*ssa.TypeAssert)
+				return ok && ta.CommaOk && namedOf(ta.AssertedType) != "pkg/protocol.ApplicationData"
+			}, vBool(false)},
+		}
+		w := (&Walk{Fn: fn, Assume: assumeAll(as...)}).FromEntry()
+		r.Check(!w.Reached[in], rule, key+":deliver", c.ipos(in), "with header epoch 0 the delivery is unreachable", "application data carried in an epoch-0 (unprotected, unauthenticated) record can be delivered to Read")
+		for _, b2 := range fn.Blocks {
+			for _, in2 := range b2.Instrs {
+				if call, ok := in2.(*ssa.Call); ok && !call.Call.IsInvoke() && isFuncBoolType(call.Call.Value.Type()) {
+					if _, isF := call.Call.Value.(*ssa.Function); !isF {
+						r.Check(!w.Reached[in2], rule, key+":commit", c.ipos(in2), "with header epoch 0 the replay commit is unreachable", "an epoch-0 application data record commits a replay slot")
 					}
-					r.Sites++
-					if !sentBytes {
-						r.Note(rule, "send:"+short(fn), c.ipos(in), "non-payload send on Conn.decrypted (error/EOF signalling)")
-						continue
-					}
-					n++
-					key := short(fn)
-					// role: whoever delivers a payload must deliver the Data of an ApplicationData record
-					var sent ssa.Value
-					switch x := in.(type) {
-					case *ssa.Send:
-						sent = x.X
-					case *ssa.Select:
-						for _, st := range x.States {
-							if st.Dir == types.SendOnly && isFieldLoad(st.Chan, "dtls.Conn", "decrypted") && isPayloadValue(st.Send) {
-								sent = st.Send
-								if mi, ok := sent.(*ssa.MakeInterface); ok {
-									sent = mi.X
-								}
-							}
-						}
-					}
-					if sent == nil || !allLeaves(c.Origins(sent, 0), func(v ssa.Value) bool { return isFieldLoad(v, "pkg/protocol.ApplicationData", "Data") }) {
-						r.Bad(rule, "payload-send:"+key, c.ipos(in), "a payload that is not the Data of an ApplicationData record is delivered to Read")
-						continue
-					}
-					// unreachable when the record's own header epoch is 0 (on the application-data branch
-					// when the consumer sits inside the content-type dispatch)
-					as := []atomAssume{
-						{mLoad("pkg/protocol/recordlayer.Header", "Epoch"), vInt(0)},
-						{mTypeAssertOK("pkg/protocol.ApplicationData"), vBool(true)},
-						{func(v ssa.Value) bool {
-							ex, ok := v.(*ssa.Extract)
-							if !ok || ex.Index != 1 {
-								return false
-							}
-							ta, ok := ex.Tuple.(*ssa.TypeAssert)
-							return ok && ta.CommaOk && namedOf(ta.AssertedType) != "pkg/protocol.ApplicationData"
-						}, vBool(false)},
-					}
-					w := (&Walk{Fn: fn, Assume: assumeAll(as...)}).FromEntry()
-					r.Check(!w.Reached[in], rule, key+":deliver", c.ipos(in), "with header epoch 0 the delivery is unreachable", "application data carried in an epoch-0 (unprotected, unauthenticated) record can be delivered to Read")
-					for _, b2 := range fn.Blocks {
-						for _, in2 := range b2.Instrs {
-							if call, ok := in2.(*ssa.Call); ok && !call.Call.IsInvoke() && isFuncBoolType(call.Call.Value.Type()) {
-								if _, isF := call.Call.Value.(*ssa.Function); !isF {
-									r.Check(!w.Reached[in2], rule, key+":commit", c.ipos(in2), "with header epoch 0 the replay commit is unreachable", "an epoch-0 application data record commits a replay slot")
-								}
-							}
-						}
-					}
-					// and the function is left without either: the record is refused or dropped.
-					// (Until repair a50b364 this obligation demanded an error outcome; the
-					// property demands that the record has no effect, and an error - with the
-					// alert it caused - was itself an effect anybody could provoke.)
-					r.Check(len(w.Returns) > 0 && !w.overflow, rule, key+":refused", c.pos(fn.Pos()), "epoch-0 application data leaves the consumer without delivery and without a replay commit (dropped or refused)", "with header epoch 0 the application-data consumer has no exit (the exploration is vacuous)")
 				}
 			}
 		}
+		// and the function is left without either: the record is refused or dropped.
+		// (Until repair a50b364 this obligation demanded an error outcome; the
+		// property demands that the record has no effect, and an error - with the
+		// alert it caused - was itself an effect anybody could provoke.)
+		r.Check(len(w.Returns) > 0 && !w.overflow, rule, key+":refused", c.pos(fn.Pos()), "epoch-0 application data leaves the consumer without delivery and without a replay commit (dropped or refused)", "with header epoch 0 the application-data consumer has no exit (the exploration is vacuous)")
 	}
 	r.Floor(rule, n, 1)
 }
@@ -786,6 +846,24 @@ func ruleDecryptAuth(c *Ctx, r *Report) {
 	// CBC: padding must be good as well
 	if fn := c.Fn("(*pkg/crypto/ciphersuite.CBC).Decrypt"); fn != nil {
 		pads := findCalls(fn, nameIs("pkg/crypto/ciphersuite.examinePadding"))
+		// the padding may be examined in a helper of the same package that judges it and hands
+		// back a verdict: the walk then starts at the call of that helper and follows into it
+		var viaHelper *ssa.Call
+		if len(pads) == 0 {
+			for _, hc := range findCalls(fn, func(string) bool { return true }) {
+				g := hc.Call.StaticCallee()
+				if g == nil || g.Pkg != fn.Pkg || len(g.Blocks) == 0 {
+					continue
+				}
+				if hp := findCalls(g, nameIs("pkg/crypto/ciphersuite.examinePadding")); len(hp) == 1 {
+					if viaHelper != nil {
+						pads = nil
+						break
+					}
+					viaHelper, pads = hc, hp
+				}
+			}
+		}
 		if len(pads) == 1 {
 			good := resultValue(pads[0], 1)
 			for _, blk := range fn.Blocks {
@@ -802,7 +880,14 @@ func ruleDecryptAuth(c *Ctx, r *Report) {
 				}, vBool(true)}, atomAssume{func(v ssa.Value) bool {
 					bo, ok := v.(*ssa.BinOp)
 					return ok && (bo.X == good || bo.Y == good) && bo.Op == token.EQL
-				}, vBool(false)})}).After(pads[0])
+				}, vBool(false)})})
+				if viaHelper != nil {
+					g := viaHelper.Call.StaticCallee()
+					w.Follow = func(callee *ssa.Function) bool { return callee == g }
+					w = w.At(viaHelper)
+				} else {
+					w = w.After(pads[0])
+				}
 				r.Check(!w.Reached[ret], rule, short(fn)+":padding", c.ipos(ret), "bad padding never yields plaintext", "CBC Decrypt returns plaintext although the padding check failed")
 			}
 		} else {
@@ -810,6 +895,150 @@ func ruleDecryptAuth(c *Ctx, r *Report) {
 		}
 	}
 	r.Floor(rule, n, 3)
+}
+
+// commitFn is a function value a replay marker hands out, seen from the marker: a function
+// literal with what it captured, or a method value with the receiver the marker built for it.
+type commitFn struct {
+	body *ssa.Function
+	// bound maps a value inside body that names something the marker put into the function
+	// value (a free variable, a field of the method value's receiver) to the marker's value;
+	// nil for anything else
+	bound func(v ssa.Value) ssa.Value
+	// holds: the marker put v into the function value
+	holds func(v ssa.Value) bool
+}
+
+func commitFnOf(mc *ssa.MakeClosure) *commitFn {
+	f, ok := mc.Fn.(*ssa.Function)
+	if !ok {
+		return nil
+	}
+	onlyStore := func(addr ssa.Value) ssa.Value {
+		var val ssa.Value
+		n := 0
+		if refs := addr.Referrers(); refs != nil {
+			for _, ref := range *refs {
+				if st, isSt := ref.(*ssa.Store); isSt && st.Addr == addr {
+					val = st.Val
+					n++
+				}
+			}
+		}
+		if n != 1 {
+			return nil
+		}
+		return val
+	}
+	if !strings.HasPrefix(f.Synthetic, "bound method wrapper") {
+		binding := func(i int) ssa.Value {
+			if i >= len(mc.Bindings) {
+				return nil
+			}
+			b := mc.Bindings[i]
+			if al, isAl := b.(*ssa.Alloc); isAl {
+				// captured by reference: what the cell holds
+				return onlyStore(al)
+			}
+			return b
+		}
+		return &commitFn{
+			body: f,
+			bound: func(v ssa.Value) ssa.Value {
+				if u, isU := v.(*ssa.UnOp); isU && u.Op == token.MUL {
+					v = u.X
+				}
+				for i, fv := range f.FreeVars {
+					if ssa.Value(fv) == v {
+						return binding(i)
+					}
+				}
+				return nil
+			},
+			holds: func(v ssa.Value) bool {
+				for i := range f.FreeVars {
+					if binding(i) == v {
+						return true
+					}
+				}
+				return false
+			},
+		}
+	}
+	// a method value: the wrapper calls the method with the bound receiver
+	if len(mc.Bindings) != 1 || len(f.Blocks) == 0 {
+		return nil
+	}
+	var method *ssa.Function
+	for _, b := range f.Blocks {
+		for _, in := range b.Instrs {
+			if cl, isCall := in.(*ssa.Call); isCall {
+				if g := cl.Call.StaticCallee(); g != nil && method == nil {
+					method = g
+				} else {
+					return nil
+				}
+			}
+		}
+	}
+	recv, isAl := mc.Bindings[0].(*ssa.Alloc)
+	if method == nil || len(method.Params) == 0 || len(method.Blocks) == 0 || !isAl {
+		return nil
+	}
+	if _, isSt := derefType(recv.Type()).Underlying().(*types.Struct); !isSt {
+		return nil
+	}
+	// the receiver is built here, field by field, and goes nowhere but into the method value
+	fields := map[int]ssa.Value{}
+	for _, ref := range *recv.Referrers() {
+		switch x := ref.(type) {
+		case *ssa.FieldAddr:
+			v := onlyStore(x)
+			if v == nil || fields[x.Field] != nil {
+				return nil
+			}
+			fields[x.Field] = v
+		case *ssa.MakeClosure:
+			if x != mc {
+				return nil
+			}
+		case *ssa.DebugRef:
+		default:
+			return nil
+		}
+	}
+	// ... and the method does not change its fields
+	for _, b := range method.Blocks {
+		for _, in := range b.Instrs {
+			if st, isSt := in.(*ssa.Store); isSt {
+				if fa, isFA := st.Addr.(*ssa.FieldAddr); isFA && fa.X == ssa.Value(method.Params[0]) {
+					return nil
+				}
+			}
+		}
+	}
+	return &commitFn{
+		body: method,
+		bound: func(v ssa.Value) ssa.Value {
+			u, isU := v.(*ssa.UnOp)
+			if !isU || u.Op != token.MUL {
+				return nil
+			}
+			fa, isFA := u.X.(*ssa.FieldAddr)
+			if !isFA || fa.X != ssa.Value(method.Params[0]) {
+				return nil
+			}
+			return fields[fa.Field]
+		},
+		holds: func(v ssa.Value) bool {
+			for _, x := range fields {
+				if x == v {
+					return true
+				}
+			}
+			return false
+		},
+	}
 }
 
 // ruleCommitMarksWindow (C06): the commit function a replay marker hands to the record consumers
@@ -852,37 +1081,22 @@ func ruleCommitMarksWindow(c *Ctx, r *Report) {
 				r.Bad(rule, key, c.ipos(ret), "the commit function handed out is neither the detector's accept function nor a function literal around it")
 				continue
 			}
-			lit := mc.Fn.(*ssa.Function)
-			// the captured accept inside the literal
-			var fv *ssa.FreeVar
-			for i, bnd := range mc.Bindings {
-				bv := bnd
-				if al, isAl := bnd.(*ssa.Alloc); isAl {
-					// captured by reference: the cell must hold accept
-					for _, ref := range *al.Referrers() {
-						if st, isSt := ref.(*ssa.Store); isSt && st.Addr == ssa.Value(al) && st.Val == accept {
-							bv = accept
-						}
-					}
-				}
-				if bv == accept && i < len(lit.FreeVars) {
-					fv = lit.FreeVars[i]
-				}
-			}
-			if fv == nil {
-				r.Bad(rule, key, c.ipos(ret), "the commit function literal does not capture the detector's accept function")
+			cf := commitFnOf(mc)
+			if cf == nil {
+				r.Bad(rule, key, c.ipos(ret), "the commit function handed out is neither a function literal nor a method value whose receiver is built here")
 				continue
 			}
+			lit := cf.body
 			isAcceptCall := func(in ssa.Instruction) bool {
 				cl, ok := in.(*ssa.Call)
 				if !ok || cl.Call.IsInvoke() {
 					return false
 				}
-				cv := cl.Call.Value
-				if u, isU := cv.(*ssa.UnOp); isU {
-					cv = u.X
-				}
-				return cv == ssa.Value(fv)
+				return cf.bound(cl.Call.Value) == accept
+			}
+			if !cf.holds(accept) {
+				r.Bad(rule, key, c.ipos(ret), "the commit function literal does not capture the detector's accept function")
+				continue
 			}
 			// what the commit function reports ("this was the newest record of its epoch": the
 			// condition for a path challenge / address switch) is the detector's own answer
@@ -968,32 +1182,16 @@ func ruleCommitMarksWindow(c *Ctx, r *Report) {
 				}
 				isRecordEpoch := func(v ssa.Value) bool {
 					v = stripConv(v)
-					if u, ok := v.(*ssa.UnOp); ok && u.Op == token.MUL {
-						v = u.X
-					}
-					fvv, ok := v.(*ssa.FreeVar)
-					if !ok {
+					b := cf.bound(v)
+					if b == nil {
 						return false
 					}
-					for i, fvx := range lit.FreeVars {
-						if fvx == fvv && i < len(mc.Bindings) {
-							b := mc.Bindings[i]
-							if al, isAl := b.(*ssa.Alloc); isAl {
-								for _, ref := range *al.Referrers() {
-									if st, isSt := ref.(*ssa.Store); isSt && st.Addr == ssa.Value(al) {
-										b = st.Val
-									}
-								}
-							}
-							if p, isP := b.(*ssa.Parameter); isP && strings.Contains(strings.ToLower(p.Name()), "epoch") {
-								return true
-							}
-							// a copy of the received header's epoch
-							if _, f, _, ok := fieldLoad(b); ok && f == "Epoch" {
-								return true
-							}
-							return false
-						}
+					if p, isP := b.(*ssa.Parameter); isP && strings.Contains(strings.ToLower(p.Name()), "epoch") {
+						return true
+					}
+					// a copy of the received header's epoch
+					if _, f, _, ok := fieldLoad(b); ok && f == "Epoch" {
+						return true
 					}
 					return false
 				}
@@ -1045,6 +1243,88 @@ func ruleCommitMarksWindow(c *Ctx, r *Report) {
 					r.Check(stale == "", "commit-reports-latest", key+":stale-epoch", c.ipos(ret), "a record of an epoch the peer has left behind is never reported as newest", "a record whose epoch is older than the connection's remote epoch can still be reported as the newest one ("+stale+")")
 				}
 			}
+			// the detector of the pinned dependency calls number 0 the latest whenever it accepts
+			// it, also after later numbers of the epoch: "newest" must also mean "not below the
+			// highest number accepted in the epoch". With every comparison of the record's number
+			// against that position answering "below", the commit function never reports newest
+			{
+				matchedOv := 0
+				isRecordSeq := func(v ssa.Value) bool {
+					b := cf.bound(stripConv(v))
+					if b == nil {
+						return false
+					}
+					if p, isP := b.(*ssa.Parameter); isP && strings.Contains(strings.ToLower(p.Name()), "sequence") {
+						return true
+					}
+					_, f, _, ok := fieldLoad(b)
+					return ok && f == "SequenceNumber"
+				}
+				isHighest := func(v ssa.Value) bool {
+					cl, ok := stripConv(v).(*ssa.Call)
+					if !ok {
+						return false
+					}
+					nm := calleeName(&cl.Call)
+					if strings.HasSuffix(nm, ").highestRemoteSequenceNumber") {
+						return true
+					}
+					if nm == "sync/atomic.LoadUint64" && len(cl.Call.Args) == 1 {
+						if ia, isIA := cl.Call.Args[0].(*ssa.IndexAddr); isIA {
+							_, f, _, okF := fieldLoad(ia.X)
+							return okF && f == "RemoteSequenceNumber"
+						}
+					}
+					return false
+				}
+				wo := (&Walk{Fn: lit, Follow: func(f *ssa.Function) bool { return false }, Assume: func(v ssa.Value) (Val, bool) {
+					for _, ac := range acceptCalls {
+						if v == ac {
+							return vBool(true), true
+						}
+					}
+					bo, ok := v.(*ssa.BinOp)
+					if !ok {
+						return unknown, false
+					}
+					var seqLeft bool
+					switch {
+					case isRecordSeq(bo.X) && isHighest(bo.Y):
+						seqLeft = true
+					case isHighest(bo.X) && isRecordSeq(bo.Y):
+						seqLeft = false
+					default:
+						return unknown, false
+					}
+					// the record's number < the highest accepted
+					var val bool
+					switch bo.Op {
+					case token.LSS, token.LEQ:
+						val = seqLeft
+					case token.GTR, token.GEQ:
+						val = !seqLeft
+					case token.EQL:
+						val = false
+					case token.NEQ:
+						val = true
+					default:
+						return unknown, false
+					}
+					matchedOv++
+					return vBool(val), true
+				}}).FromEntry()
+				overtaken := ""
+				for _, ro := range wo.Returns {
+					if len(ro.Vals) == 1 && !(ro.Vals[0].Kind == 1 && !ro.Vals[0].B) {
+						overtaken = c.ipos(ro.Ret)
+					}
+				}
+				if matchedOv == 0 {
+					r.Bad("commit-reports-latest", key+":overtaken", c.ipos(ret), "the commit function takes the detector's word for newest and never compares the record's number with the highest number accepted in its epoch: the detector calls number 0 the latest whenever it accepts it, so the first record of an epoch, held back and delivered from another address after later records, nominates that address for a path validation")
+				} else {
+					r.Check(overtaken == "", "commit-reports-latest", key+":overtaken", c.ipos(ret), "a record below the highest number accepted in its epoch is never reported as newest", "a record whose number is below the highest accepted in its epoch can still be reported as the newest one ("+overtaken+")")
+				}
+			}
 			w := &Walk{Fn: lit, Visit: func(in ssa.Instruction, _ Env) bool { return !isAcceptCall(in) }}
 			w.FromEntry()
 			r.Check(len(w.Returns) == 0, rule, key, c.ipos(ret), "every path of the commit function marks the sequence number in the detector", "the commit function can return without calling the detector's accept function: a record delivered on that path is not marked as received and every duplicate of it inside the window is delivered again")
@@ -1069,18 +1349,57 @@ func ruleSeqReconstruction(c *Ctx, r *Report) {
 	r.Sites += len(fn.Blocks)
 	var W, H, E ssa.Value
 	isConst := func(v ssa.Value, k int64) bool { x, ok := constInt(v); return ok && x == k }
+	// the inputs: the on-wire bits and the S bit (parameters, or fields of a header handed in
+	// whole), and the highest number accepted so far (the 64-bit parameter)
+	isPartial := func(v ssa.Value) bool {
+		v = stripConv(v)
+		if p, isP := v.(*ssa.Parameter); isP {
+			bt, isB := p.Type().Underlying().(*types.Basic)
+			return isB && bt.Kind() == types.Uint16
+		}
+		_, f, _, ok := fieldLoad(v)
+		return ok && f == "SequenceNumber"
+	}
+	isSeqBit := func(v ssa.Value) bool {
+		if p, isP := v.(*ssa.Parameter); isP {
+			bt, isB := p.Type().Underlying().(*types.Basic)
+			return isB && bt.Kind() == types.Bool
+		}
+		_, f, _, ok := fieldLoad(v)
+		return ok && f == "SeqBit"
+	}
 	for _, b := range fn.Blocks {
 		for _, in := range b.Instrs {
-			bo, ok := in.(*ssa.BinOp)
-			if !ok {
-				continue
-			}
-			switch {
-			case bo.Op == token.SHL && isConst(bo.X, 1):
-				W = bo
-			case bo.Op == token.ADD && isConst(bo.Y, 1):
-				if p, isP := bo.X.(*ssa.Parameter); isP && paramIndex(p) == 2 {
-					E = bo
+			switch x := in.(type) {
+			case *ssa.BinOp:
+				switch {
+				case x.Op == token.SHL && isConst(x.X, 1):
+					W = x
+				case x.Op == token.ADD && isConst(x.Y, 1):
+					if p, isP := x.X.(*ssa.Parameter); isP {
+						if bt, isB := p.Type().Underlying().(*types.Basic); isB && bt.Kind() == types.Uint64 {
+							E = x
+						}
+					}
+				}
+			case *ssa.Phi:
+				// the window chosen between the two constants
+				// (any two constants of which a mask is made: the width obligation says
+				// whether they are the right ones)
+				nConst := 0
+				for _, e := range x.Edges {
+					if k, isC := constInt(e); isC && k > 1 {
+						nConst++
+					}
+				}
+				masked := false
+				for _, ref := range *x.Referrers() {
+					if bo, isBo := ref.(*ssa.BinOp); isBo && bo.Op == token.SUB && bo.X == ssa.Value(x) && isConst(bo.Y, 1) {
+						masked = true
+					}
+				}
+				if len(x.Edges) == 2 && nConst == 2 && masked && W == nil {
+					W = x
 				}
 			}
 		}
@@ -1091,26 +1410,42 @@ func ruleSeqReconstruction(c *Ctx, r *Report) {
 	}
 	// the width is 16 with the S bit, 8 without
 	okBits := false
-	if sh, ok := W.(*ssa.BinOp); ok {
-		if phi, isPhi := stripConv(sh.Y).(*ssa.Phi); isPhi && len(phi.Edges) == 2 {
+	{
+		var phi *ssa.Phi
+		var at ssa.Instruction
+		want := map[bool]int64{true: 16, false: 8}
+		if sh, ok := W.(*ssa.BinOp); ok {
+			phi, _ = stripConv(sh.Y).(*ssa.Phi)
+			at = sh
+		} else if wp, ok := W.(*ssa.Phi); ok {
+			phi = wp
+			want = map[bool]int64{true: 1 << 16, false: 1 << 8}
+			// the first use of the window after the choice
+			for _, in := range wp.Block().Instrs {
+				if _, isPhi := in.(*ssa.Phi); !isPhi && at == nil {
+					at = in
+				}
+			}
+		}
+		if phi != nil && len(phi.Edges) == 2 && at != nil {
 			vals := map[int64]bool{}
 			for _, e := range phi.Edges {
 				if k, isC := constInt(e); isC {
 					vals[k] = true
 				}
 			}
-			okBits = vals[8] && vals[16]
+			okBits = vals[want[true]] && vals[want[false]]
 			for _, role := range []bool{true, false} {
 				rl := role
 				w := (&Walk{Fn: fn, Assume: func(v ssa.Value) (Val, bool) {
-					if p, isP := v.(*ssa.Parameter); isP && paramIndex(p) == 1 {
+					if isSeqBit(v) {
 						return vBool(rl), true
 					}
 					return unknown, false
 				}})
 				got := int64(-1)
 				w.VisitRaw = func(in ssa.Instruction, _ Env, raw map[*ssa.Phi]ssa.Value) bool {
-					if in == ssa.Instruction(sh) {
+					if in == at {
 						if k, isC := constInt(resolvePhis(phi, raw)); isC {
 							got = k
 						}
@@ -1118,7 +1453,7 @@ func ruleSeqReconstruction(c *Ctx, r *Report) {
 					return true
 				}
 				w.FromEntry()
-				if (rl && got != 16) || (!rl && got != 8) {
+				if got != want[rl] {
 					okBits = false
 				}
 			}
@@ -1174,7 +1509,7 @@ func ruleSeqReconstruction(c *Ctx, r *Report) {
 					if pr[0] == E && isNotMask(pr[1]) {
 						hiOK = true
 					}
-					if p, isP := stripConv(pr[0]).(*ssa.Parameter); isP && paramIndex(p) == 0 && isMask(pr[1]) {
+					if isPartial(pr[0]) && isMask(pr[1]) {
 						loOK = true
 					}
 				}
@@ -1380,27 +1715,25 @@ func ruleDeliveryCommits(c *Ctx, r *Report) {
 		return true
 	}
 	n := 0
+	toRead := map[*ssa.Function][]ssa.Instruction{}
+	for _, dl := range c.readDeliveries() {
+		if dl.payload {
+			toRead[dl.fn] = append(toRead[dl.fn], dl.in)
+		}
+	}
 	for _, fn := range c.Fns {
 		if fn.Pkg == nil || fn.Pkg.Pkg.Name() != "dtls" || len(fn.Blocks) == 0 {
 			continue
 		}
 		var deliveries []ssa.Instruction
 		what := map[ssa.Instruction]string{}
+		for _, in := range toRead[fn] {
+			deliveries = append(deliveries, in)
+			what[in] = "payload sent to the application (Conn.decrypted)"
+		}
 		for _, b := range fn.Blocks {
 			for _, in := range b.Instrs {
 				switch x := in.(type) {
-				case *ssa.Select:
-					for _, st := range x.States {
-						if st.Dir == types.SendOnly && isFieldLoad(st.Chan, "dtls.Conn", "decrypted") && isPayloadValue(st.Send) {
-							deliveries = append(deliveries, in)
-							what[in] = "payload sent to the application (Conn.decrypted)"
-						}
-					}
-				case *ssa.Send:
-					if isFieldLoad(x.Chan, "dtls.Conn", "decrypted") && isPayloadValue(x.X) {
-						deliveries = append(deliveries, in)
-						what[in] = "payload sent to the application (Conn.decrypted)"
-					}
 				case *ssa.Call:
 					if cal := x.Call.StaticCallee(); cal != nil && cal.Signature.Recv() != nil && namedOrType(cal.Signature.Recv().Type()) == "internal/flight.Cache" && cal.Name() == "Push" && isFieldLoad(x.Call.Args[0], "dtls.Conn", "handshakeCache") {
 						// a *received* message: what is pushed comes out of the reassembly buffer
